@@ -156,6 +156,10 @@ def build_cells():
             cells.append((f"Agg+:{t}:{seed}:{s[:16]}", f"{s}.Aggregate({seed}, lambda acc, v: acc + v)", wider(ts, t)))
             cells.append((f"Agg*:{t}:{seed}:{s[:16]}", f"{s}.Aggregate({seed}, lambda acc, v: acc * 2 + v)", wider(ts, t)))
             cells.append((f"Aggcount:{t}:{seed}:{s[:16]}", f"{s}.Aggregate({seed}, lambda acc, v: acc + 1)", ts))
+    # a Min / Max inside the source of another one (each starts from its own identity)
+    cells.append(("MaxOfMin", "j.constituents().Select(lambda c: j.weights().Select(lambda w: abs(w) + 3 + c.pt() * 0).Min()).Max()", "double"))
+    cells.append(("MinOfMax", "j.constituents().Select(lambda c: j.weights().Select(lambda w: 0 - abs(w) - 3 + c.pt() * 0).Max()).Min()", "double"))
+    cells.append(("MaxBehindMinFilter", "j.constituents().Where(lambda c: j.weights().Select(lambda w: abs(w) + 3).Min() > 1).Select(lambda c: c.pt() - 500).Max()", "double"))
     # sums / aggregates mixing kinds inside the fold
     cells.append(("Agg-mixed-1", "j.constituents().Select(lambda c: c.nHits()).Aggregate(0, lambda acc, v: acc + v / 2)", "double"))
     cells.append(("Agg-mixed-2", "j.constituents().Select(lambda c: c.nHits()).Aggregate(1, lambda acc, v: acc + v * 0.5)", "double"))
